@@ -11,6 +11,7 @@ package main
 
 import (
 	"bytes"
+	"strings"
 	"fmt"
 	"strconv"
 
@@ -84,6 +85,12 @@ func implHistory(cs Case) ImplResult {
 		default:
 			hist = append(hist, GenDoc(rng))
 		}
+	}
+	// a very large document early in the history (state kept only for "big" documents: pools / caches with a size guard)
+	if rng.Chance(30) {
+		big := strings.Repeat("# a\n\n## b c\n\n[^1]: n\n\nx[^1] \"q\n\n[r]: /u\n\n", 140+rng.Intn(200))
+		hist = append([][]byte{[]byte(big)}, hist...)
+		hist = append(hist, []byte("# a\n\n## b c\n\n[r]\n"))
 	}
 	// a pair of same-length, same-offset link documents (an accepted URL, then a dangerous one): stale per-slice state shows here
 	if rng.Chance(60) {
